@@ -1,5 +1,103 @@
-import ErdosVerif.Model.Sim
+import ErdosVerif.Lemmas.SimInv
+/-!
+# C05 — every simulation terminates; it does not end while work remains
+
+What is *proved* here (for all inputs): the decision logic of
+`Simulator.__get_next_scheduler_event` (`Sim.restart`, the pure function the model's
+`nextSchedulerEvent` delegates to after gathering what the source reads) never
+schedules the scheduler in the past, never at the same instant when the scheduler
+frequency is ≤ 0, never at or after the loop timeout, and produces SIMULATOR_END
+before the timeout only when no event, no schedulable task and no placed task is left;
+together with clock monotonicity (C03) this is the "time keeps advancing / stops no
+later than the timeout / does not stop early" skeleton of the property.
+
+What is *not* proved (PARTIAL): termination of the whole loop for every world, and
+"feasible work is always finished under a work-conserving policy" — these need a
+well-founded measure over the event queue and a model of the policies; they are decided
+by exploration only (the watchdog and end-state oracles of the C05 suite over runs of
+the real simulator, which are replayed through this model).
+-/
 namespace ErdosVerif.C05
-open ErdosVerif.Model
-theorem placeholder : ET.taskFinished = 3 := rfl
+open ErdosVerif.Model ErdosVerif.Model.Sim
+
+/-- The restart decision is SIMULATOR_END or SCHEDULER_START. -/
+theorem restart_kind (f : SimFlags) (l ev : Int) (i : RestartIn) :
+    (restart f l ev i).1 = ET.simulatorEnd ∨ (restart f l ev i).1 = ET.schedulerStart := by
+  unfold restart
+  simp only []
+  repeat' split
+  all_goals first | exact Or.inl rfl | exact Or.inr rfl
+
+/-- **The scheduler is never restarted in the past, never at or after the loop timeout,
+and strictly later than the triggering event when the frequency is ≤ 0** (no
+same-instant SCHEDULER_FINISHED → SCHEDULER_START cycle); with a positive frequency it
+is at least one period after the previous start. For all flags, times and inputs. -/
+theorem restart_start_bounds (f : SimFlags) (l ev : Int) (i : RestartIn)
+    (h : (restart f l ev i).1 = ET.schedulerStart) :
+    ev ≤ (restart f l ev i).2 ∧ (restart f l ev i).2 < f.loopTimeout ∧
+    (f.schedFrequency ≤ 0 → ev < (restart f l ev i).2) ∧
+    (0 < f.schedFrequency → l + f.schedFrequency ≤ (restart f l ev i).2) := by
+  revert h
+  unfold restart
+  simp only [ET.simulatorEnd, ET.schedulerStart]
+  repeat' split
+  all_goals simp only [bne_iff_ne, ne_eq, reduceCtorEq, Nat.reduceEqDiff, false_implies, forall_const] at *
+  all_goals (try omega)
+
+/-- **The run is ended no later than the loop timeout**: a SIMULATOR_END decided here
+is never after the timeout. -/
+theorem restart_end_by_timeout (f : SimFlags) (l ev : Int) (i : RestartIn)
+    (h : (restart f l ev i).1 = ET.simulatorEnd) : (restart f l ev i).2 ≤ f.loopTimeout := by
+  revert h
+  unfold restart
+  simp only [ET.simulatorEnd, ET.schedulerStart]
+  repeat' split
+  all_goals simp only [bne_iff_ne, ne_eq, reduceCtorEq, Nat.reduceEqDiff, false_implies, forall_const] at *
+  all_goals (try omega)
+
+/-- **It never ends early while work remains**: SIMULATOR_END before the timeout is
+decided only when the event queue is empty, nothing is schedulable and nothing is
+placed or planned — and then it is the very next instant. -/
+theorem restart_end_only_when_idle (f : SimFlags) (l ev : Int) (i : RestartIn)
+    (h : (restart f l ev i).1 = ET.simulatorEnd) :
+    (restart f l ev i).2 = f.loopTimeout ∨
+    (i.queueEmpty = true ∧ i.schedEmpty = true ∧ i.runningEmpty = true ∧ (restart f l ev i).2 = ev + 1) := by
+  revert h
+  unfold restart
+  simp only [ET.simulatorEnd, ET.schedulerStart]
+  repeat' split
+  all_goals simp only [bne_iff_ne, ne_eq, reduceCtorEq, Nat.reduceEqDiff, false_implies, forall_const,
+    Bool.and_eq_true] at *
+  all_goals first
+    | exact Or.inl trivial
+    | (right; simp_all)
+
+/-- With `scheduler_run_at_worker_free` the restart waits for the earliest estimated
+completion but is never pulled before the regular restart time. -/
+theorem restart_worker_free (f : SimFlags) (l ev : Int) (i : RestartIn)
+    (hw : f.runAtWorkerFree = true) (hr : i.runningEmpty = false)
+    (h : (restart f l ev i).1 = ET.schedulerStart) :
+    i.minCompletion + 1 ≤ (restart f l ev i).2 := by
+  revert h
+  unfold restart
+  simp only [ET.simulatorEnd, ET.schedulerStart, hw, hr]
+  repeat' split
+  all_goals simp only [bne_iff_ne, ne_eq, reduceCtorEq, Nat.reduceEqDiff, false_implies, forall_const,
+    Bool.and_eq_true, Bool.not_false, Bool.and_self, Bool.and_false, Bool.false_eq_true] at *
+  all_goals first | omega | simp_all
+
+/-- Simulated time never moves backwards along any run (C03's invariant, restated
+because "time keeps advancing" is half of this property). -/
+theorem clock_never_backwards (s0 : SimS) (fuel : Nat) (h : Inv s0) :
+    ((simulate s0 fuel).2.log.toList.filterMap clockOf).Pairwise (· ≤ ·) :=
+  (simulate_inv s0 fuel h).2.1.1
+
+/-- Non-vacuity: concrete decisions of each kind. -/
+example :
+    let f : SimFlags := { loopTimeout := 100, schedFrequency := 0 }
+    let busy : RestartIn := ⟨false, false, false, 50, false, false, false, 60, 70⟩
+    let idle : RestartIn := ⟨true, true, true, 50, false, false, false, 60, 70⟩
+    restart f 0 10 busy = (ET.schedulerStart, 11) ∧ restart f 0 10 idle = (ET.simulatorEnd, 11) ∧
+    restart f 0 99 busy = (ET.simulatorEnd, 100) := by decide
+
 end ErdosVerif.C05
